@@ -76,3 +76,10 @@ def trimText (o : TrimOpts) (es : List Entry) : List Entry :=
   topN o.nodeCount (sortBy (order o) (afterCutoff o es))
 
 end PV.Trim
+
+namespace PV.Trim
+open PV.GSpec PV.Graph
+/-- report.go `graphTotal`: Σ FlatValue over the listed nodes — the legend's "Showing nodes
+accounting for" figure. -/
+def graphTotal {κ : Type} (g : GState κ) : Int := (g.shownNodes.map (fun p => p.2.flat.value)).sum
+end PV.Trim
